@@ -302,6 +302,11 @@ def stepLine (s : DSt) (w : List String) : DSt × String :=
             let r := "eol=" ++ ",".intercalate (List.replicate (v.length + extra) "1")
             (s, s!"R {r} log=- | C {fmtCModel s.m} | I {fmtI s.m "0" 0 []} | S {r} log=- ; {fmtCSpec s.sp}")
         | _, _ => (s, "bad-op")
+      | ["e", "stale", idw] =>
+        -- message events are emitted in an event structure whose id field is already set: the first byte decides
+        match parseId idw with
+        | some _ => (s, s!"R ok log=- | C {fmtCModel s.m} | I {fmtI s.m "0" 0 []} | S ok log=- ; {fmtCSpec s.sp}")
+        | none => (s, "bad-op")
       | ["e", "ctx"] =>
         -- the dispatcher gets a fallback reply context of its own: nothing the property speaks of changes
         (s, s!"R ok log=- | C {fmtCModel s.m} | I {fmtI s.m "0" 0 []} | S ok log=- ; {fmtCSpec s.sp}")
@@ -370,6 +375,7 @@ def stepX (s : DSt) (w : List String) : DSt × String :=
   | "xe" :: "emit" :: rest => stepLine s ("e" :: "emit" :: rest)
   | ["xe", "hash", a, b] => stepLine s ["e", "hash", a, b]
   | ["xe", "rc", a] => stepLine s ["e", "rc", a]
+  | ["xe", "stale", a] => stepLine s ["e", "stale", a]
   | ["xe", "reserve", n] => stepLine s ["e", "reserve", n]
   | ["xe", "get", idw] =>
     if !s.active then (s, "bad-op")
